@@ -785,9 +785,11 @@ impl Xot {
                             namespaces.push(namespace_id);
                         }
                         for name in self.attributes(node).keys() {
-                            let namespace_id = self.namespace_for_name(name);
-                            if !fullname_serializer.is_namespace_known(namespace_id) {
-                                namespaces.push(namespace_id);
+                            // an attribute in a namespace needs a prefix that
+                            // is not the empty prefix: a default namespace
+                            // declaration does not resolve it
+                            if fullname_serializer.attribute_prefix(name).is_err() {
+                                namespaces.push(self.namespace_for_name(name));
                             }
                         }
                     }
